@@ -167,6 +167,7 @@ CANARIES = {
         ("type-regex-backtracks", "stix2/properties.py", "text", ["TYPE_21_REGEX = re.compile(r'^[a-z][a-z0-9-]*\\Z')", "TYPE_21_REGEX = re.compile(r'^([a-z][a-z0-9]*)+([a-z0-9-]+)*-?\\Z')"], "C19.type-grammar"),
         ("name-taken-across-categories", "stix2/registration.py", "text", ["    if new_type._type in OBJ_MAP_OBSERVABLE.keys():", "    if False:"], "C19.map-agreement"),
         ("extension-left-behind", "stix2/v21/sdo.py", "text", ["                _unregister_extension(extension_name, '2.1')\n", "                pass\n"], "C19.composite-registration"),
+        ("unregistered-extension-key-unvalidated", "stix2/properties.py", "text", ["                    _validate_id(\n                        key, self.spec_version, 'extension-definition--',\n                    )\n", "                    pass\n"], "C19.validation-before-write"),
     ],
     "C20": [
         ("boundary-overlap", "stix2/confidence/scales.py", "int+1", ["value_to_wep", "39 -> 40"], "C20.specification"),
